@@ -89,6 +89,7 @@ fn step_ite() {
     let f = sym::any_edge(&s, s.init_c.get());
     let g = sym::any_edge(&s, s.init_c.get());
     let h = sym::any_edge(&s, s.init_c.get());
+    s.cache.miss_arity = 3;
     s.cache.top_level = s.min_level(&[f.borrowed(), g.borrowed(), h.borrowed()]);
     let want = lift3(s.g(&f), s.g(&g), s.g(&h));
     let r = B::ite_edge(&s, &f, &g, &h);
